@@ -255,6 +255,12 @@ def check_hex_decode_text(h, text):
         assert want is None, "HexStrToRawData threw (%s) on %r which binascii.unhexlify accepts" % (" ".join(reply[1:]), text)
         return True, ["threw"]
     r = ok(reply, "hexd")
+    # accepted: then Python must accept the text too once the blanks tbox strips at both ends are removed
+    try:
+        stripped = binascii.unhexlify(text.strip(b" \t"))
+    except (binascii.Error, ValueError):
+        raise AssertionError("HexStrToRawData accepted %r (-> %s) which binascii.unhexlify rejects" % (text, r[0]))
+    assert unhx(r[0]) == stripped, "HexStrToRawData(%r) = %s, binascii.unhexlify gives %s" % (text, r[0], stripped.hex())
     if want is not None:
         assert unhx(r[0]) == want, "HexStrToRawData(%r) = %s, binascii.unhexlify gives %s" % (text, r[0], want.hex())
     return want is not None, ["python_accepts" if want is not None else "python_rejects"]
